@@ -14,7 +14,7 @@ from concurrent.futures import ThreadPoolExecutor
 
 REPO = os.environ.get('VERIF_REPO', '/repo')
 VERIF = os.path.dirname(os.path.dirname(os.path.abspath(__file__)))
-BUILD = os.path.join(VERIF, '.build')
+BUILD = os.path.join(os.environ.get('VERIF_OUT') or VERIF, '.build')     # scratch runs keep their builds with their output
 GUARD = 'JEDI_PAIRING_VERIF'
 
 COMMON = ['-std=c++17', '-I' + os.path.join(REPO, 'include'), '-D' + GUARD]
